@@ -363,6 +363,75 @@ Definition c01_mnorm_sum (nrm : R -> Z) (A : list (list R)) : Z :=
 Definition c01_mnorm_inf (nrm : R -> Z) (A : list (list R)) : Z :=
   c01_for (c01_rows A) (fun i res => Z.max (c01_norm_sum nrm (c01_row A i)) res) 0%Z.
 
+(* ------------------------------------------------------------------ kernels built from the tokens of the source
+   (tools/params.d/C01.py -> Params_gen.v): one descriptor per kernel says which loop bound (rows() / cols()) the outer and the
+   inner loop have, which loop variable indexes the destination y[.], the entry A[.][.] and the source x[.], whether the entry
+   is conjugated, multiplied by alpha, added or subtracted, and whether y[outer] is reset to 0 first. *)
+Record c01_kdesc : Type := C01_KD {
+  kd_outer_rows : bool; kd_inner_rows : bool; kd_tgt_outer : bool; kd_a_swapped : bool; kd_x_outer : bool;
+  kd_conj : bool; kd_alpha : bool; kd_plus : bool; kd_reset : bool }.
+Definition c01_kdesc_of (l : list bool) : c01_kdesc :=
+  match l with
+  | [a; b; c; d; e; f; g; h; i] => C01_KD a b c d e f g h i
+  | _ => C01_KD true false true false false false false true false
+  end.
+Definition c01_kernel_step (d : c01_kdesc) (alpha : R) (A : list (list R)) (x : list R) (o n : nat) (yy : list R) : list R :=
+  let t := if kd_tgt_outer d then o else n in
+  let a := if kd_a_swapped d then c01_get A n o else c01_get A o n in
+  let a := if kd_conj d then conj a else a in
+  let a := if kd_alpha d then mul alpha a else a in
+  let xv := c01_at x (if kd_x_outer d then o else n) in
+  c01_upd yy t ((if kd_plus d then add else sub) (c01_at yy t) (mul a xv)).
+Definition c01_kernel_gen (d : c01_kdesc) (alpha : R) (A : list (list R)) (x y : list R) : list R :=
+  c01_for (if kd_outer_rows d then c01_rows A else c01_cols A) (fun o yy =>
+    c01_for (if kd_inner_rows d then c01_rows A else c01_cols A) (fun n yy => c01_kernel_step d alpha A x o n yy)
+            (if kd_reset d then c01_upd yy o zero else yy)) y.
+
+(* the same kernel as a transformer of the three C++ objects: `A` and `x` are read through their references in every iteration,
+   only `y` is written (the frame of the kernel is part of the statement, not of the encoding) *)
+Record c01_objs : Type := C01_Objs { c01_oA : list (list R); c01_ox : list R; c01_oy : list R }.
+Definition c01_kernel_objs (d : c01_kdesc) (alpha : R) (s : c01_objs) : c01_objs :=
+  c01_for (if kd_outer_rows d then c01_rows (c01_oA s) else c01_cols (c01_oA s)) (fun o s =>
+    c01_for (if kd_inner_rows d then c01_rows (c01_oA s) else c01_cols (c01_oA s))
+            (fun n s => C01_Objs (c01_oA s) (c01_ox s) (c01_kernel_step d alpha (c01_oA s) (c01_ox s) o n (c01_oy s)))
+            (if kd_reset d then C01_Objs (c01_oA s) (c01_ox s) (c01_upd (c01_oy s) o zero) else s)) s.
+
+(* DiagonalMatrix kernels from their tokens: y[i] (=|+=|-=) [alpha *] [conj] diag[i] * x[i] *)
+Definition c01_dg_kernel_gen (l : list bool) (alpha : R) (d x y : list R) : list R :=
+  match l with
+  | [cj; al; plus; assign] =>
+    c01_for (length d) (fun i yy =>
+      let a := if cj then conj (c01_at d i) else c01_at d i in
+      let a := if al then mul alpha a else a in
+      c01_upd yy i (if assign then mul a (c01_at x i) else (if plus then add else sub) (c01_at yy i) (mul a (c01_at x i)))) y
+  | _ => y
+  end.
+
+(* ------------------------------------------------------------------ aliased in-place products  A.rightmultiply(A), A.leftmultiply(A)
+   literal: the loops as written, with M the SAME object as *this: M[k][j] reads entries that were already overwritten;
+   after fix C01-5 the aliased call goes through a copy of M, i.e. it is c01_rightmultiply A A / c01_leftmultiply A A *)
+Definition c01_rightmultiply_self_literal (A : list (list R)) : list (list R) :=
+  let C := A in
+  c01_for (c01_rows A) (fun i T =>
+    c01_for (c01_cols A) (fun j T =>
+      c01_for (c01_cols A) (fun k T => c01_set2 T i j (add (c01_get T i j) (mul (c01_get C i k) (c01_get T k j))))
+              (c01_set2 T i j zero)) T) A.
+Definition c01_leftmultiply_self_literal (A : list (list R)) : list (list R) :=
+  let C := A in
+  c01_for (c01_rows A) (fun i T =>
+    c01_for (c01_cols A) (fun j T =>
+      c01_for (c01_rows A) (fun k T => c01_set2 T i j (add (c01_get T i j) (mul (c01_get T i k) (c01_get C k j))))
+              (c01_set2 T i j zero)) T) A.
+Definition c01_rightmultiply_self (A : list (list R)) : list (list R) := c01_rightmultiply A A.
+Definition c01_leftmultiply_self (A : list (list R)) : list (list R) := c01_leftmultiply A A.
+
+(* ------------------------------------------------------------------ FieldVector<K,1> / FieldMatrix<K,1,1> used like the scalar they hold
+   (fvector.hh 423-596 free operators, conversion operators; fmatrix.hh 1x1 operator+/-(scalar)) *)
+Definition c01_fv1_op (f : R -> R -> R) (a : list R) (k : R) : list R := [f (c01_at a 0) k].      (* a op k *)
+Definition c01_fv1_op_l (f : R -> R -> R) (k : R) (a : list R) : list R := [f k (c01_at a 0)].    (* k op a *)
+Definition c01_fv1_conv (a : list R) : R := c01_at a 0.                                             (* operator K& *)
+Definition c01_fm11_conv (A : list (list R)) : R := c01_get A 0 0.                                 (* operator const K& *)
+
 End Model.
 
 (* ------------------------------------------------------------------ instances *)
